@@ -8053,9 +8053,11 @@ static int read_record (hawk_rtx_t* rtx)
 	hawk_ooecs_t* buf;
 
 read_again:
-	if (hawk_rtx_clrrec(rtx, 0) <= -1) return -1;
-
-	buf = &rtx->inrec.line;
+	/* read into the getline buffer like eval_getline() does. the current
+	 * record must stay intact until another record has been read so that
+	 * $0 and NF keep the last record in the END block */
+	buf = &rtx->inrec.lineg;
+	hawk_ooecs_clear (buf);
 	n = hawk_rtx_readio(rtx, HAWK_IN_CONSOLE, HAWK_T(""), buf);
 	if (n <= -1)
 	{
